@@ -12,7 +12,8 @@
 (***************************************************************************)
 EXTENDS Naturals, Sequences, FiniteSets, TLC
 
-CONSTANTS NCalls, Limits, Periods, MaxT, Bug
+CONSTANTS NCalls, Limits, Periods, MaxT, Bug,
+          Late      \* BOOLEAN: calls arriving at the very instant a window slot frees (TickArrive) are explored
 
 C == 1..NCalls
 
@@ -87,6 +88,17 @@ Tick ==
   /\ now' = now + 1
   /\ UNCHANGED <<conf, entries, lockq, pc, wake, arrived, starts, res, obs>>
 
+(* the clock reaches the next instant AND call c arrives at that very instant - after whatever was due then has been
+   woken, before it has run on: the newcomer queues behind everyone who arrived earlier, whoever holds the lock or was
+   just handed it *)
+TickArrive(c) ==
+  /\ Late /\ Rest /\ now < MaxT
+  /\ pc[c] = "idle" /\ \A d \in C : d < c => pc[d] # "idle"
+  /\ now' = now + 1
+  /\ pc' = [pc EXCEPT ![c] = "queued"] /\ lockq' = Append(lockq, c)
+  /\ arrived' = [arrived EXCEPT ![c] = now + 1]
+  /\ UNCHANGED <<conf, entries, wake, starts, res, obs>>
+
 (* the wrapped function of call c finishes with a value or an exception *)
 FnEnd(c, o) ==
   /\ Rest /\ pc[c] = "running"
@@ -101,7 +113,7 @@ Cancel(c) ==
   /\ lockq' = SelectSeq(lockq, LAMBDA d : d # c)
   /\ UNCHANGED <<conf, now, entries, wake, arrived, starts, obs>>
 
-Controlled == \/ \E c \in C : Arrive(c) \/ Cancel(c) \/ (\E o \in {"val", "exc"} : FnEnd(c, o))
+Controlled == \/ \E c \in C : Arrive(c) \/ TickArrive(c) \/ Cancel(c) \/ (\E o \in {"val", "exc"} : FnEnd(c, o))
               \/ Tick
 
 Next == Internal \/ Settle \/ Controlled
